@@ -195,7 +195,13 @@ Definition judge_getitem (c : gcase) : Z :=
     let cl := clause_of fmt unsigned sh ix in
     (* the Spec itself against NumPy (kind 9), inside the grammar *)
     if in_grammar ix && negb (spec_kind input npout sh flat ix =? 0) then 9 + 10 * cl
-    else if negb (k =? 0) then k + 10 * cl
+    else if negb (k =? 0) then
+      (* also: does the model reproduce the implementation's (wrong) answer?  (COO and DOK models are
+         transcriptions of the whole path; + 1000 when they do not) *)
+      k + 10 * cl
+      + (if negb (fmt =? fmt_gcxs) && negb unsigned
+            && negb ((model_kind fmt unsigned input out ix + dmodel_kind fmt input out ix) =? 0)
+         then 1000 else 0)
     else
       let mk := model_kind fmt unsigned input out ix + gmodel_kind fmt unsigned input out ix + dmodel_kind fmt input out ix in
       if mk =? 0 then 0
